@@ -1,4 +1,4 @@
-HOOK_COMMITS = ["5763a84"]
+HOOK_COMMITS = ["5763a84", "0183cfc", "533f193"]
 FIX_COMMITS = ["cf6d5f6 (C18)", "C05 cursor fix"]
 NOTES = ("All checks are `bin/check <ID> --tier quick|thorough`. Every check rebuilds the harness from /repo's working tree with --cfg asca_verif, "
          "regenerates spec/gen/Inventory.tla from the tables the code loaded, runs TLC on the property's spec instances and binds them to the code by replay "
